@@ -15,6 +15,7 @@ mod c14;
 mod c15;
 mod c16;
 mod c17;
+mod c18;
 mod driver;
 mod procs;
 mod codecgen;
@@ -99,6 +100,8 @@ fn main() {
                 "C12" => c12::run(&ctx, &mut o),
                 "C15" => c15::run(&ctx, &mut o),
                 "C16" => c16::run(&ctx, &mut o),
+                "C18" => c18::run_c18(&ctx, &mut o),
+                "C19" => c18::run_c19(&ctx, &mut o),
                 "C17" => c17::run(&ctx, &mut o),
                 "C14" => c14::run(&ctx, &mut o),
                 "C13" => c13::run(&ctx, &mut o),
